@@ -78,9 +78,13 @@ structure Ctx where
   graph : Sched.Graph Nat
   tasks : Array TaskSpec
   n : Nat
+  parentOf : Nat → Option Nat      -- observed: the thread that created an `lcc.Thread`
 
-def G.init (_c : Ctx) : G :=
-  { sched := Sched.empty, insts := Insts.empty, kept := [], reasonOf := [], running := [], defF := Flags.none,
+/-- `run_suites` sets the pre_run fixtures up before the session starts (the session only runs if all of
+    them succeeded): their results exist from the beginning -/
+def G.init (c : Ctx) : G :=
+  { sched := Sched.empty,
+    insts := { results := (preRunFixtures c.P).map (fun n => (InstKey.preRun, n)), ptObjects := [] }, kept := [], reasonOf := [], running := [], defF := Flags.none,
     startedEff := Flags.none, fired := #[], handled := 0, sessionStarted := false, sessionEnded := false, mainUser := [] }
 
 def tidOf (c : Ctx) (t : Nat) : Option TaskId := (c.tasks[t]?).map (·.id)
@@ -107,21 +111,28 @@ def setEventTid (r : Nat) : Event → Event
   | .url l s _ u d t => .url l s r u d t
   | e => e
 
-/-- model events carry model clock values; the observation carries 0: compare modulo time -/
-def zeroTime : Event → Event
-  | .sessionStart _ => .sessionStart 0 | .sessionEnd _ => .sessionEnd 0
-  | .sessionSetupStart _ => .sessionSetupStart 0 | .sessionSetupEnd _ => .sessionSetupEnd 0
-  | .sessionTeardownStart _ => .sessionTeardownStart 0 | .sessionTeardownEnd _ => .sessionTeardownEnd 0
-  | .suiteStart p m _ => .suiteStart p m 0 | .suiteEnd p _ => .suiteEnd p 0
-  | .suiteSetupStart p _ => .suiteSetupStart p 0 | .suiteSetupEnd p _ => .suiteSetupEnd p 0
-  | .suiteTeardownStart p _ => .suiteTeardownStart p 0 | .suiteTeardownEnd p _ => .suiteTeardownEnd p 0
-  | .testStart p m _ => .testStart p m 0 | .testEnd p _ => .testEnd p 0
-  | .testSkipped p m r _ => .testSkipped p m r 0 | .testDisabled p m r _ => .testDisabled p m r 0
-  | .stepStart l d tid _ => .stepStart l d tid 0 | .stepEnd l d tid _ => .stepEnd l d tid 0
-  | .log l s tid lv m _ => .log l s tid lv m 0
-  | .check l s tid d ok det _ => .check l s tid d ok det 0
-  | .attachment l s tid _ d i _ => .attachment l s tid "" d i 0      -- the counter prefix is schedule dependent
-  | .url l s tid u d _ => .url l s tid u d 0
+/-- overwrite the time an event carries -/
+def retime (n : Nat) : Event → Event
+  | .sessionStart _ => .sessionStart n | .sessionEnd _ => .sessionEnd n
+  | .sessionSetupStart _ => .sessionSetupStart n | .sessionSetupEnd _ => .sessionSetupEnd n
+  | .sessionTeardownStart _ => .sessionTeardownStart n | .sessionTeardownEnd _ => .sessionTeardownEnd n
+  | .suiteStart p m _ => .suiteStart p m n | .suiteEnd p _ => .suiteEnd p n
+  | .suiteSetupStart p _ => .suiteSetupStart p n | .suiteSetupEnd p _ => .suiteSetupEnd p n
+  | .suiteTeardownStart p _ => .suiteTeardownStart p n | .suiteTeardownEnd p _ => .suiteTeardownEnd p n
+  | .testStart p m _ => .testStart p m n | .testEnd p _ => .testEnd p n
+  | .testSkipped p m r _ => .testSkipped p m r n | .testDisabled p m r _ => .testDisabled p m r n
+  | .stepStart l d tid _ => .stepStart l d tid n | .stepEnd l d tid _ => .stepEnd l d tid n
+  | .log l s tid lv m _ => .log l s tid lv m n
+  | .check l s tid d ok det _ => .check l s tid d ok det n
+  | .attachment l s tid p d i _ => .attachment l s tid p d i n
+  | .url l s tid u d _ => .url l s tid u d n
+
+/-- model events carry model clock values and counter-prefixed attachment names; the observation carries
+    0 and the un-prefixed name: compare modulo both -/
+def zeroTime (e : Event) : Event :=
+  match retime 0 e with
+  | .attachment l s tid _ d i t => .attachment l s tid "" d i t      -- the counter prefix is schedule dependent
+  | e' => e'
 
 def normItem : Item → Item
   | .ev e => .ev (zeroTime e)
@@ -211,6 +222,9 @@ def acceptItem (c : Ctx) (g : G) (th : Nat) (mk : Nat → Item) : Verdict :=
     -- 2. an unknown thread: an `lcc.Thread` of some running task whose next expected item belongs to a
     --    role that is not bound yet
     let cand := g.running.find? (fun r =>
+      (match c.parentOf th with
+       | some p => (r.roles.lookup p).isSome
+       | none => true) &&
       match r.expected with
       | e :: _ =>
         let role := roleOfItem e
